@@ -9,13 +9,6 @@ pub proof fn axiom_str_key_model()
     ensures obeys_key_model::<&str>(), builds_valid_hashers::<std::collections::hash_map::RandomState>(),
 {}
 
-// two string slices with the same contents are the same spec value
-#[verifier::external_body]
-pub broadcast proof fn axiom_str_ext(a: &str, b: &str)
-    requires #[trigger] a@ == #[trigger] b@,
-    ensures a == b,
-{}
-
 #[verifier::external_body]
 pub broadcast proof fn axiom_str_borrowed_key<'s, V>(m: Map<&'s str, V>, q: &str)
     ensures #[trigger] contains_borrowed_key::<&'s str, V, str>(m, q) <==> (exists|k: &'s str| #[trigger] m.contains_key(k) && k@ == q@),
